@@ -72,6 +72,15 @@ class OneShotQueue:
         self.thread.is_stopped = True
         raise queue.Empty()
 
+    def get_nowait(self):
+        # (as queue.Queue: no stopping of the worker here -- only a blocking get() that finds nothing ends the pump)
+        if self.items:
+            return self.items.pop(0)
+        raise queue.Empty()
+
+    def put_nowait(self, x):
+        self.items.append(x)
+
     def qsize(self):
         return len(self.items)
 
